@@ -4,7 +4,7 @@
 import OdfModel.DomDoc
 import OdfModel.Props.C08
 namespace OdfModel.Props.C09
-open OdfModel.Dom OdfModel.DomDoc
+open OdfModel.Dom OdfModel.DomDoc OdfModel.Props.C07 OdfModel.Props.C08
 
 theorem edGet_edSet (d : List (Nat × List Id)) (q q' : Nat) (v : List Id) :
     edGet (edSet d q v) q' = if q' = q then v else edGet d q' := by
@@ -25,5 +25,144 @@ theorem edGet_edSet (d : List (Nat × List Id)) (q q' : Nat) (v : List Id) :
       by_cases h2 : k = q'
       · subst h2; simp [hk]
       · simp [h2]
+
+/-! ### the traversal `elems` visits exactly the element nodes of the subtree, each once -/
+
+theorem elems_zero (h : Heap) (n : Id) :
+    elems h 0 n = if (h n).kind = .elem then none else some [] := by simp [elems]
+theorem elems_succ (h : Heap) (f : Nat) (n : Id) :
+    elems h (f + 1) n = if (h n).kind = .elem then (elemsL h f (h n).kids).map (fun l => n :: l) else some [] := by
+  simp [elems]
+theorem elemsL_nil (h : Heap) (f : Nat) : elemsL h f [] = some [] := by simp [elemsL]
+theorem elemsL_cons (h : Heap) (f : Nat) (k : Id) (r : List Id) :
+    elemsL h f (k :: r) = match elems h f k, elemsL h f r with
+      | some a, some b => some (a ++ b)
+      | _, _ => none := by
+  rw [elemsL]; cases elems h f k <;> cases elemsL h f r <;> rfl
+
+theorem elems_of_not_elem {h : Heap} {n : Id} (hk : (h n).kind ≠ .elem) (f : Nat) : elems h f n = some [] := by
+  cases f <;> simp [elems, hk]
+
+theorem elemsL_cons_some {h : Heap} {f : Nat} {k : Id} {r l : List Id} (hl : elemsL h f (k :: r) = some l) :
+    ∃ a b, elems h f k = some a ∧ elemsL h f r = some b ∧ l = a ++ b := by
+  rw [elemsL_cons] at hl
+  cases ha : elems h f k with
+  | none => simp [ha] at hl
+  | some a =>
+    cases hb : elemsL h f r with
+    | none => simp [ha, hb] at hl
+    | some b => simp [ha, hb] at hl; exact ⟨a, b, rfl, rfl, hl.symm⟩
+
+/-- membership in the traversal of a list of siblings -/
+theorem elemsL_mem {h : Heap} {f : Nat} : ∀ {ks l : List Id}, elemsL h f ks = some l →
+    ∀ x, x ∈ l ↔ ∃ k ∈ ks, ∃ lk, elems h f k = some lk ∧ x ∈ lk := by
+  intro ks
+  induction ks with
+  | nil => intro l hl x; rw [elemsL_nil] at hl; cases hl; simp
+  | cons k r ih =>
+    intro l hl x
+    obtain ⟨a, b, ha, hb, rfl⟩ := elemsL_cons_some hl
+    rw [List.mem_append, ih hb x]
+    constructor
+    · rintro (hx | ⟨k', hk', lk, hlk, hx⟩)
+      · exact ⟨k, by simp, a, ha, hx⟩
+      · exact ⟨k', by simp [hk'], lk, hlk, hx⟩
+    · rintro ⟨k', hk', lk, hlk, hx⟩
+      rcases List.mem_cons.mp hk' with e | hk'
+      · subst e; rw [ha] at hlk; cases hlk; exact Or.inl hx
+      · exact Or.inr ⟨k', hk', lk, hlk, hx⟩
+
+theorem elemsL_all {h : Heap} {f : Nat} : ∀ {ks l : List Id}, elemsL h f ks = some l →
+    ∀ k ∈ ks, ∃ lk, elems h f k = some lk := by
+  intro ks
+  induction ks with
+  | nil => intro l _ k hk; cases hk
+  | cons k r ih =>
+    intro l hl k' hk'
+    obtain ⟨a, b, ha, hb, _⟩ := elemsL_cons_some hl
+    rcases List.mem_cons.mp hk' with e | hk'
+    · subst e; exact ⟨a, ha⟩
+    · exact ih hb k' hk'
+
+theorem elems_elem_some {h : Heap} {f : Nat} {n : Id} {l : List Id} (hk : (h n).kind = .elem)
+    (hl : elems h f n = some l) : ∃ f' l', f = f' + 1 ∧ elemsL h f' (h n).kids = some l' ∧ l = n :: l' := by
+  cases f with
+  | zero => simp [elems_zero, hk] at hl
+  | succ f' =>
+    rw [elems_succ] at hl
+    simp only [hk, if_true] at hl
+    cases hl' : elemsL h f' (h n).kids with
+    | none => simp [hl'] at hl
+    | some l' => simp [hl'] at hl; exact ⟨f', l', rfl, hl', hl.symm⟩
+
+theorem elems_head {h : Heap} {f : Nat} {n : Id} {l : List Id} (hk : (h n).kind = .elem)
+    (hl : elems h f n = some l) : n ∈ l := by
+  obtain ⟨_, l', _, _, rfl⟩ := elems_elem_some hk hl; simp
+
+theorem AncOrSelf.below {h : Heap} {n k x : Id} (hp : (h k).parent = some n) (ha : AncOrSelf h k x) :
+    AncOrSelf h n x := by
+  induction ha with
+  | refl => exact AncOrSelf.step hp AncOrSelf.refl
+  | step hpx _ ih => exact AncOrSelf.step hpx ih
+
+/-- soundness: whatever the traversal of `n` lists is an element at or below `n` -/
+theorem elems_sound {h : Heap} (hI : Inv h) : ∀ (f : Nat) (n : Id) (l : List Id), elems h f n = some l →
+    ∀ x ∈ l, AncOrSelf h n x ∧ (h x).kind = .elem := by
+  intro f
+  induction f with
+  | zero =>
+    intro n l hl x hx
+    by_cases hk : (h n).kind = .elem
+    · simp [elems_zero, hk] at hl
+    · rw [elems_of_not_elem hk] at hl; cases hl; cases hx
+  | succ f ih =>
+    intro n l hl x hx
+    by_cases hk : (h n).kind = .elem
+    · obtain ⟨f', l', hf, hl', rfl⟩ := elems_elem_some hk hl
+      cases hf
+      rcases List.mem_cons.mp hx with e | hx
+      · subst e; exact ⟨AncOrSelf.refl, hk⟩
+      · obtain ⟨k, hkm, lk, hlk, hxk⟩ := (elemsL_mem hl' x).mp hx
+        obtain ⟨ha, hke⟩ := ih k lk hlk x hxk
+        exact ⟨AncOrSelf.below ((hI.parent_iff n k).mp hkm) ha, hke⟩
+    · rw [elems_of_not_elem hk] at hl; cases hl; cases hx
+
+/-- the traversal is closed under "element child of a listed node" -/
+theorem elems_closed {h : Heap} : ∀ (f : Nat) (n : Id) (l : List Id), elems h f n = some l →
+    ∀ p ∈ l, ∀ x ∈ (h p).kids, (h x).kind = .elem → x ∈ l := by
+  intro f
+  induction f with
+  | zero =>
+    intro n l hl p hp
+    by_cases hk : (h n).kind = .elem
+    · simp [elems_zero, hk] at hl
+    · rw [elems_of_not_elem hk] at hl; cases hl; cases hp
+  | succ f ih =>
+    intro n l hl p hp x hx hxe
+    by_cases hk : (h n).kind = .elem
+    · obtain ⟨f', l', hf, hl', rfl⟩ := elems_elem_some hk hl
+      cases hf
+      rcases List.mem_cons.mp hp with e | hp
+      · subst e
+        obtain ⟨lx, hlx⟩ := elemsL_all hl' x hx
+        exact List.mem_cons_of_mem _ ((elemsL_mem hl' x).mpr ⟨x, hx, lx, hlx, elems_head hxe hlx⟩)
+      · obtain ⟨k, hkm, lk, hlk, hpk⟩ := (elemsL_mem hl' p).mp hp
+        have := ih k lk hlk p hpk x hx hxe
+        exact List.mem_cons_of_mem _ ((elemsL_mem hl' x).mpr ⟨k, hkm, lk, hlk, this⟩)
+    · rw [elems_of_not_elem hk] at hl; cases hl; cases hp
+
+/-- completeness: a successful traversal of `n` lists every element at or below `n` -/
+theorem elems_complete {h : Heap} (hI : Inv h) {f : Nat} {n : Id} {l : List Id} (hl : elems h f n = some l)
+    {x : Id} (ha : AncOrSelf h n x) (hx : (h x).kind = .elem) : x ∈ l := by
+  induction ha with
+  | refl => exact elems_head hx hl
+  | @step x p hpx _ ih =>
+    have hpe : (h p).kind = .elem := hI.parent_elem hpx
+    exact elems_closed f n l hl p (ih hpe) x ((hI.parent_iff p x).mpr hpx) hx
+
+/-- **what the three recursions visit**: exactly the element nodes at or below `n` -/
+theorem elems_spec {h : Heap} (hI : Inv h) {f : Nat} {n : Id} {l : List Id} (hl : elems h f n = some l) (x : Id) :
+    x ∈ l ↔ AncOrSelf h n x ∧ (h x).kind = .elem :=
+  ⟨fun hx => elems_sound hI f n l hl x hx, fun ⟨ha, hk⟩ => elems_complete hI hl ha hk⟩
 
 end OdfModel.Props.C09
